@@ -576,9 +576,13 @@ def r2_enable_fh(L, repo):
     for prior in (None, Opaque("OLD")):
         for accept in (True, False):
             env = {"self.fh": prior, "self.running": True}
+            # a well-formed SETFH argument triple (the handler passes HSN, MAIO and the list of (Rx, Tx) pairs)
+            good = (5, 1, [(935000000, 890000000), (935200000, 890200000), (936000000, 891000000)])
             if va:
-                env[va] = (Opaque("HSN"), Opaque("MAIO"), Opaque("MA"))
-            for p_ in ps[1:]:
+                env[va] = good
+            for p_, v_ in zip(ps[1:], good):
+                env[p_] = v_
+            for p_ in ps[1 + len(good):]:
                 env[p_] = Opaque(p_)
             made = []
 
